@@ -341,6 +341,7 @@ func runC03(e *Engine, r *Report) {
 	ruleSelfRemoved(e, r)
 	borrow(e, r, "C04", "TBL-free-order", "MPT-persist-before-send", "MPT-persist-before-ack")
 	borrow(e, r, "C08", "MPT-restore-replaces")
+	ruleTallyDistinct(e, r)
 }
 
 // canGrantTrueEdges: in the boolean phi that forms the predicate's result,
